@@ -863,7 +863,7 @@ func runEpisode(ep *Episode, pool []*Op, refs []Ref, st *ConcStats, a *concArgs)
 			if o.Panic != "" && !o.Budget {
 				st.Fired["documented_or_other_panic"]++
 			}
-			if o.Fault && viol == nil {
+			if (o.Fault || o.ArgModified) && viol == nil {
 				// absolute, not relative to the solo run: the library wrote to
 				// an input that every client shares
 				viol = &ViolationRec{T: "violation", Prop: "C15", CheckID: "conc-input-modified", Engine: "conc",
